@@ -162,6 +162,17 @@ func checkC10(c c10Case) *ev.Failure {
 		if back.Length() != uint64(len(want)) {
 			return ev.Failf("full/length", "loaded full store reports %d keys, want %d", back.Length(), len(want))
 		}
+		for name, again := range map[string]*store.FullKV{"into-the-store-that-saved-it": full, "a-second-time": back} {
+			if err := again.Load(ctx, file); err != nil {
+				return ev.Failf("full/load-error", "%s: %v", name, err)
+			}
+			if f := kvEq("full-save-load-"+name, want, sdsl.Snapshot(again)); f != nil {
+				return f
+			}
+			if again.SizeBytes() != wantSize || again.Length() != uint64(len(want)) {
+				return ev.Failf("full/size", "full store loaded %s reports %d bytes and %d keys, want %d and %d", name, again.SizeBytes(), again.Length(), wantSize, len(want))
+			}
+		}
 		if file.Partial || file.Range.StartBlock != c.Initial || file.Range.ExclusiveEndBlock != c.Initial+10 {
 			return ev.Failf("full/fileinfo", "Save returned %+v %s", file, file.Range)
 		}
@@ -194,6 +205,21 @@ func checkC10(c c10Case) *ev.Failure {
 		}
 		if f := prefixesEq("partial-save-load", wantPrefixes, back.DeletedPrefixes); f != nil {
 			return f
+		}
+		// loading it back into a store object that has a history: the one that saved it, and one that loaded it already
+		for name, again := range map[string]*store.PartialKV{"into-the-store-that-saved-it": part, "a-second-time": back} {
+			if err := again.Load(ctx, file); err != nil {
+				return ev.Failf("partial/load-error", "%s: %v", name, err)
+			}
+			if f := kvEq("partial-save-load-"+name, want, sdsl.Snapshot(again)); f != nil {
+				return f
+			}
+			if again.SizeBytes() != wantSize {
+				return ev.Failf("partial/size", "partial store loaded %s reports %d bytes, keys+values total %d", name, again.SizeBytes(), wantSize)
+			}
+			if f := prefixesEq("partial-save-load-"+name, wantPrefixes, again.DeletedPrefixes); f != nil {
+				return f
+			}
 		}
 		if !file.Partial || file.Range.StartBlock != c.Initial+5 || file.Range.ExclusiveEndBlock != c.Initial+10 {
 			return ev.Failf("partial/fileinfo", "Save returned %+v %s", file, file.Range)
@@ -297,7 +323,7 @@ func classifyC10(c c10Case) (bool, []string) {
 }
 
 func TestC10(t *testing.T) {
-	ev.Get("C10", "Snapshots").Rule = "rapid: content of 0..12 (1 in 30: hundreds to thousands) entries built through real set operations (keys arbitrary valid UTF-8 incl. control/multi-byte characters, values binary incl. empty and large), delete prefixes for partials; Save->write->Load into a fresh store compared bytewise with size and prefix list; sets of 0..12 full/partial snapshots with ranges up to 10 digits saved through Save and listed with ListSnapshotFiles(below) for below around every boundary: every saved snapshot ending <= below is returned with its range and kind and nothing unsaved is returned; non-trivial = an empty value and a non-ASCII/control key, or >=3 snapshots of both kinds"
+	ev.Get("C10", "Snapshots").Rule = "rapid: content of 0..12 (1 in 30: hundreds to thousands) entries built through real set operations (keys arbitrary valid UTF-8 incl. control/multi-byte characters, values binary incl. empty and large), delete prefixes for partials; Save->write->Load into a fresh store, into the store object that saved it and a second time into the same object, each compared bytewise with size and prefix list; sets of 0..12 full/partial snapshots with ranges up to 10 digits saved through Save and listed with ListSnapshotFiles(below) for below around every boundary: every saved snapshot ending <= below is returned with its range and kind and nothing unsaved is returned; non-trivial = an empty value and a non-ASCII/control key, or >=3 snapshots of both kinds"
 	ev.Prop(t, "C10", "Snapshots", genC10, checkC10, classifyC10)
 }
 
